@@ -38,7 +38,8 @@ PROBES = ["interned_default_returned", "init_returned_itself", "incompatible_ini
           "incompatible_namespace_rejected", "convert_to_parent_drops_namespaces",
           "ror_used", "equal_sets_hash_equal", "negative_namespace_definition",
           "last_namespace_wins", "inheriting_namespace_subclass",
-          "namespace_with_converting_constructor", "plain_mixin_among_bases"]
+          "namespace_with_converting_constructor", "plain_mixin_among_bases",
+          "render_args_subclass"]
 COMPONENTS = {
     "real": ["RenderArgs (__new__/__init__ interning, update, convert, __eq__, __hash__, "
              "__contains__, __getitem__)", "ArgsNamespace (__or__, __ror__, __pos__, update, "
@@ -219,6 +220,7 @@ def run(ch, ctx, fault=None):
             return None
 
         args_classes = [i for i, c in enumerate(classes) if c["fields"] is not None]
+        SubRenderArgs = type("SubRenderArgs", (RenderArgs,), {})
         n_ops = ch.int("n_ops", 5, ctx.cfg["max_ops"])
         for step in range(n_ops):
             op = ch.weighted("op", [
@@ -280,7 +282,13 @@ def run(ch, ctx, fault=None):
                 nsl = [ch.pick("ns", nss) for _ in range(ch.int("n_ns", 0, 3))] if nss else []
                 exp = model_ctor(target, init, nsl)
                 args = ([init[0]] if init is not None else []) + [n[0] for n in nsl]
-                res = attempt(lambda: RenderArgs(classes[target]["cls"], *args), op)
+                # the concrete class of a set is immaterial to every law (an application may
+                # subclass RenderArgs): equal sets of different concrete classes are equal
+                ra_cls = RenderArgs
+                if ch.bool("ra_subclass", 0.25):
+                    ra_cls = SubRenderArgs
+                    ctx.probe("render_args_subclass")
+                res = attempt(lambda: ra_cls(classes[target]["cls"], *args), op)
                 desc = "RenderArgs(%s, init=%s, ns=%s)" % (
                     classes[target]["name"],
                     init and (classes[init[1]]["name"], init[2]),
